@@ -465,8 +465,14 @@ func TestVerifC02(t *testing.T) {
 							c.v.nc.Flush()
 							stats["step/late-request-from-earlier-epoch"]++
 						}
-						c.v.follower(f, int64(len(c.logs[f])-1))
+						reported, endNow := int64(len(c.logs[f])-1), c.part().log.NewestOffset()
+						caughtBefore := c.v.lastCaughtUp(f)
+						c.v.follower(f, reported)
 						c.v.settle()
+						// in-sync membership rests on what a replica reports: a request below the log end does not make it "caught up"
+						if reported < endNow && c.v.lastCaughtUp(f).After(caughtBefore) {
+							c.violation("caught-up-without-reporting-the-log-end", fmt.Sprintf("replica %s reported offset %d of leader a's log, which ends at %d; the leader sent the rest and marked the replica as caught up", f, reported, endNow))
+						}
 						ll := c.logOf("a")
 						for i := 0; i < k && len(c.logs[f]) < len(ll); i++ {
 							c.appendSim(f, ll[len(c.logs[f])])
